@@ -40,6 +40,12 @@ def hg_run(seed, prop, i, fault_free, collectors=("zero", "copy", "sweep", "swip
         stress = None
     sim = {"seed": cfg.getrandbits(48), "policy": tb.draw_policy(cfg, 2 + 2 * workers, max(200, 40 * w.next_id // 10)),
            "hot": 0 if fault_free else cfg.choice([0, 300, 3000, 20000])}
+    if gc == "swiper":
+        # cooperative fault point: header-word stores while the concurrent sweeper runs
+        # (schedules are part of both batches; the fault-free batch injects no collections)
+        sim["hotsweep"] = cfg.choice([sim["hot"], 20000, 65536, 65536])
+        if cfg.random() < 0.4:
+            sim["policy"] = "sticky:%d" % cfg.choice([230, 245, 250, 253])
     sim.update(faults)
     return {"index": i, "exe": ["heapgraph", gc, cg, "sim"], "argv": script, "dora_flags": " ".join(flags), "sim": sim,
             "expect": {"rc": 0, "stdout": out, "stderr_empty": True}, "timeout": 300, "fault_free": fault_free,
